@@ -318,6 +318,8 @@ IDENT_CALLS = (
     "<sha1::digest::generic_array::GenericArray<T, N> as std::ops::Deref>::deref",
     "<[T; N] as std::convert::AsRef<[T]>>::as_ref",
     "core::array::<impl [T; N]>::as_slice",
+    "std::array::<impl [T; N]>::as_slice",
+    "std::array::<impl [T; N]>::as_mut_slice",
     "core::array::<impl [T; N]>::as_mut_slice",
     "core::array::<impl std::convert::AsRef<[T]> for [T; N]>::as_ref",
     "core::str::<impl str>::as_bytes",
